@@ -251,43 +251,56 @@ class Evaluation:
         return self._conv[ka] + self._conv[kb]
 
 
-def check(case):
-    ev = Evaluation(case)
-    out, info = ev.out, ev.info
-    dim = case["dim"]
+def judge_pairs(ev, pairs, dim, thresh, secondary, describe):
+    """verdict logic shared by both subs (module docstring, `Verdict per pair`): returns (status, margin, unconverged, blind);
+    raises Violation only for a converged disagreement beyond CLEAR"""
+    out = ev.out
     margin, unconverged, blind, status = [], [], [], {}
-    for name, _, _, tr in PAIRS:
+    for name, _, _, tr in pairs:
         if name not in out:
-            status[name] = "not-judged-in-3D"
+            status[name] = "not-judged"
             continue
         r = out[name]
-        p_ok, p_clear, p_conv = THRESH.get((name, dim), THRESH["default"])
-        secondary = (name, dim) in SECONDARY
+        p_ok, p_clear, p_conv = thresh(name)
+        sec = secondary(name)
         if not np.isfinite(r["rel"]):
             raise Violation(f"{name}:not-finite", "result contains NaN/inf")
         if r["scale"] == 0:
             blind.append(name)
+            status[name] = "zero"
             continue
         status[name] = "agrees"
         if r["rel"] > p_clear:
             cv = ev.conv(name)
             if not cv <= p_conv:
                 status[name] = "not-converged"
-                if not secondary:
+                if not sec:
                     unconverged.append(name)
                 continue
             how = "sign" if r["flip"] < p_ok else ("index order" if (r["transp"] is not None and r["transp"] < p_ok) else "value")
             raise Violation(f"{name}:sea-vs-surface",
                             f"{name}: the two forms differ by {r['rel']:.3f} of the tensor scale ({how}; sign-flipped partner "
                             f"{r['flip']:.3f}, transposed partner {r['transp']}) although both changed by only "
-                            f"{cv:.3f} (sum) between the two grids; dim={dim} T={case['T']} "
-                            f"use_factor={case['use_factor']} gap>={case['gap']} judged levels={info['njudged']}")
+                            f"{cv:.3f} (sum) between the two grids; {describe}")
         if r["rel"] > p_ok:
             status[name] = "inside-margin"
-            if not secondary:
+            if not sec:
                 margin.append(name)
         if tr is not None and r["transp"] <= GUARD:
             blind.append(name)
+    return status, margin, unconverged, blind
+
+
+def check(case):
+    ev = Evaluation(case)
+    out, info = ev.out, ev.info
+    dim = case["dim"]
+    status, margin, unconverged, blind = judge_pairs(
+        ev, PAIRS, dim, lambda name: THRESH.get((name, dim), THRESH["default"]), lambda name: (name, dim) in SECONDARY,
+        f"dim={dim} T={case['T']} use_factor={case['use_factor']} hole_like={bool(case.get('hole'))} gap>={case['gap']} "
+        f"judged levels={info['njudged']}")
+    if "nldrude_d2" not in out:
+        status["nldrude_d2"] = "not-judged-in-3D"
     if unconverged:
         raise Inconclusive("not converged: " + ",".join(unconverged))
     if margin:
@@ -295,9 +308,250 @@ def check(case):
     nt = not blind
     worst = max(out[n]["rel"] for n in ("ohmic", "berrydipole", "gme_spin", "gme_orb"))
     return ok(nt, f"dim={dim}", f"nw={case['nw']}", f"ss={case['ss']}", f"use_factor={case['use_factor']}",
+              "hole_like" if case.get("hole") else "electron_like",
               case["lat"]["kind"], "rel<1%" if worst < 0.01 else ("rel<2.5%" if worst < 0.025 else "rel<5%"),
               f"nldrude:{status['nldrude']}", f"f''form:{status['nldrude_d2']}",
               ("blind:" + ",".join(blind)) if blind else "all-pairs-discriminating")
 
 
-SUBS = [Sub("pairs", case_st(), check, quick=4, thorough=32, budget_quick=600, budget_thorough=1800, per_shard_min=1)]
+# ------------------------------------------------------------------------------------------------
+# sub "kp": k.p models (SystemKP) with a closed pocket well inside the k-box
+
+KP_LATTICES = ["hexagonal", "monoclinic", "triclinic", "generic", "hexagonal60", "rhombohedral", "sc", "orthorhombic",
+               "tetragonal", "fcc", "bcc"]
+# (NKdiv, NKFFT) judged / coarse; 3D as for the tight-binding sub (24^3 / 16^3), 2D 60^2..64^2 / 36^2..40^2
+KP_GRIDS = {3: GRIDS[3],
+            2: [([6, 6, 1], [10, 10, 1], [4, 4, 1], [10, 10, 1]), ([8, 8, 1], [8, 8, 1], [5, 5, 1], [8, 8, 1]),
+                ([5, 5, 1], [12, 12, 1], [3, 3, 1], [12, 12, 1])]}
+KP_THRESH = {"default": (0.05, 0.15, 0.06), "nldrude": (0.15, 0.35, 0.06), ("gme_orb", 3): (0.15, 0.35, 0.06)}
+KP_EXACT = (0.02, 0.06, 0.03)        # (PASS, CLEAR, CONV) of one Ohmic form against the exact value of the parabolic pocket
+KP_PAIRS = [("ohmic", "ohmic_sea", "ohmic_surf", None),
+            ("nldrude", "nldrude_sea", "nldrude_surf", None),
+            ("berrydipole", "berrydipole_sea", "berrydipole_surf", (0, 2, 1)),
+            ("gme_orb", "gme_orb_sea", "gme_orb_surf", (0, 2, 1))]
+KP_BELOW = 8.0       # judged Fermi levels are >= this many kT above the band bottom ...
+KP_ABOVE = 15.5      # ... and <= E_face - this many kT:  f < 2e-7 and f' < 7.5e-7 of its pocket value (1/4kT) on the boundary
+KP_WINDOW = 8.2      # the Fermi grid extends this many kT beyond the judged levels (the smoother reaches 8 kT)
+KP_STEP = 0.25       # Fermi grid step / kT
+
+
+@st.composite
+def kp_case_st(draw):
+    dim = draw(st.sampled_from([2, 2, 3]))
+    box = draw(st.sampled_from(["real", "real", "recip", "kmax"]))
+    nb = draw(st.sampled_from([2, 1]))
+    kind = "trig" if nb == 2 else draw(st.sampled_from(["parabolic", "trig"]))
+    return dict(dim=dim, box=box, lat=(draw(wbsys.lattice_st(kinds=KP_LATTICES)) if box != "kmax" else None),
+                kmax=(draw(fl(0.3, 3.0, 3)) if box == "kmax" else None), nb=nb, kind=kind,
+                ratios=[draw(fl(1.0, 2.5, 3)), draw(fl(1.0, 2.5, 3))], angles=[draw(fl(0.0, 3.14, 3)) for _ in range(3)],
+                amp=draw(fl(0.05, 0.15, 3)), delta=draw(fl(0.12, 0.3, 3)), nterms=draw(st.integers(2, 4)),
+                rs=draw(st.integers(0, 2 ** 32)), T=draw(fl(300.0, 2000.0, 1)), ratio=draw(fl(40.0, 70.0, 1)),
+                grid=draw(st.integers(0, 2)), use_factor=draw(st.booleans()), cartesian=draw(st.sampled_from([True, False])),
+                # which derivatives of the Hamiltonian are left to the finite-difference scheme of SystemKP (the minimal
+                # example mixes an analytic first with a numerical second derivative)
+                fd1=draw(st.sampled_from([False, True])), fd2=draw(st.sampled_from([True, False])),
+                fd3=draw(st.sampled_from([False, True])), dk=draw(st.sampled_from([1e-4, 1e-3])),
+                periodic3=draw(st.booleans()))
+
+
+def kp_recip(case):
+    if case["box"] == "kmax":
+        return np.eye(3) * 2 * float(case["kmax"])
+    L = wbsys.lattice_matrix(case["lat"])
+    return 2 * np.pi * np.linalg.inv(L).T if case["box"] == "real" else L
+
+
+def kp_model(case):
+    """the model, scaled to the temperature, and the Fermi windows; asserts the closed-pocket precondition from the harness'
+    own evaluation of the bands on the boundary of the box"""
+    from scipy.constants import Boltzmann, elementary_charge
+    from vlib import kp28
+    dim = case["dim"]
+    m = kp28.PocketModel(kp_recip(case), dim, case["nb"], case["kind"], case["ratios"], case["angles"], case["amp"],
+                         case["delta"], case["nterms"], case["rs"])
+    kT = float(case["T"]) * Boltzmann / elementary_charge
+    interior = m.interior_points(121 if dim == 2 else 33)
+    m.set_scale(1.0)
+    bottom1 = float(m.bands_red(interior)[:, 0].min())
+    m.set_scale(float(case["ratio"]) * kT / (m.face_bound - bottom1))        # E_face - bottom = ratio * kT
+    E = m.bands_red(interior)
+    bottom = float(E[:, 0].min())            # >= the true minimum: every judged level is inside the band range
+    face = m.face_bound
+    lo, hi = bottom + KP_BELOW * kT, face - KP_ABOVE * kT
+    dE = KP_STEP * kT
+    n = int(np.ceil((hi - lo + 2 * KP_WINDOW * kT) / dE))
+    Ef = lo - KP_WINDOW * kT + dE * np.arange(n + 1)
+    boundary = float(m.bands_red(m.boundary_points(241 if dim == 2 else 49))[:, 0].min())
+    if boundary < face - 1e-9 * abs(face):
+        raise RuntimeError("harness: own lower bound of the band energy on the box boundary is wrong")
+    if not (Ef[-1] <= boundary - (KP_ABOVE - KP_WINDOW - 2 * KP_STEP) * kT and hi <= boundary - KP_ABOVE * kT and hi - lo > 12 * kT):
+        raise RuntimeError("harness: closed-pocket precondition not met by the generated model")
+    info = dict(kT=kT, bottom=bottom, face=face, boundary=boundary, lo=lo, hi=hi,
+                gap=(float(np.min(E[:, 1] - E[:, 0])) if m.nb == 2 else None),
+                second_band=(float(E[:, 1].min()) if m.nb == 2 else None))
+    return m, Ef, info
+
+
+def kp_system(case, m):
+    from wannierberri.system import SystemKP
+    cart = bool(case["cartesian"])
+    fd = [bool(case["fd1"]), bool(case["fd2"]), bool(case["fd3"])]
+    depth3 = 0
+    for f in fd:                      # nesting depth of the numerical third derivative
+        depth3 = depth3 + 1 if f else 0
+    dk = 1e-3 if depth3 == 3 else float(case["dk"])       # three nested stencils: round-off ~ eps/h^3 needs the larger step
+    kw = dict(k_vector_cartesian=cart, finite_diff_dk=dk, silent=True)
+    if case["box"] == "kmax":
+        kw["kmax"] = float(case["kmax"])
+    elif case["box"] == "real":
+        kw.update(kmax=None, real_lattice=wbsys.lattice_matrix(case["lat"]))
+    else:
+        kw.update(kmax=None, recip_lattice=wbsys.lattice_matrix(case["lat"]))
+    for i, name in enumerate(["derHam", "der2Ham", "der3Ham"]):
+        if not fd[i]:
+            kw[name] = m.fun(i + 1, cart)
+    if case["dim"] == 2 and not case["periodic3"]:
+        kw["periodic"] = (True, True, False)
+    system = SystemKP(Ham=m.fun(0, cart), **kw)
+    if not np.allclose(system.recip_lattice, m.recip, rtol=1e-9, atol=1e-12):
+        raise RuntimeError("harness: reciprocal lattice of the system is not the one of the model")
+    return system
+
+
+def kp_calculators(case, Ef, smoother):
+    from wannierberri.calculators import static
+    kw = dict(Efermi=Ef, smoother=smoother, use_factor=bool(case["use_factor"]), tetra=True)
+    c = dict(ohmic_sea=static.Ohmic_FermiSea(**kw), ohmic_surf=static.Ohmic_FermiSurf(**kw))
+    if case["kind"] != "parabolic":       # third derivative of a parabolic band vanishes identically: nothing to compare
+        c.update(nldrude_sea=static.NLDrude_FermiSea(**kw), nldrude_surf=static.NLDrude_FermiSurf(**kw))
+    if case["nb"] == 2:
+        c.update(berrydipole_sea=static.BerryDipole_FermiSea(**kw), berrydipole_surf=static.BerryDipole_FermiSurf(**kw),
+                 gme_orb_sea=static.GME_orb_FermiSea(**kw), gme_orb_surf=static.GME_orb_FermiSurf(**kw))
+    return c
+
+
+def kp_run(system, case, Ef, smoother, NKdiv, NKFFT, scratch, tag):
+    import wannierberri as wb
+    grid = wb.Grid(system, NKdiv=np.array(NKdiv), NKFFT=np.array(NKFFT), use_symmetry=False)
+    res = wb.run(system, grid=grid, calculators=kp_calculators(case, Ef, smoother), parallel=False, adpt_num_iter=0,
+                 use_irred_kpt=False, symmetrize=False, fout_name=os.path.join(scratch, "res_" + tag), suffix="",
+                 restart=False, file_Klist_path=os.path.join(scratch, "klist_" + tag), print_progress_step_time=1e9)
+    data = {}
+    for k, v in res.results.items():
+        E = np.array(v.Energies[0])
+        if E.shape != Ef.shape or np.max(np.abs(E - Ef)) > 1e-9:
+            raise Violation("fermi-grid", f"{k}: result is not given on the requested Fermi grid")
+        data[k] = np.array(v.dataSmooth, dtype=float)
+    return data
+
+
+def kp_exact_ohmic(case, m, Ef_judged, kT):
+    """exact Ohmic tensor of the parabolic pocket E = k.M.k/2 at temperature T (documented units: e^2/hbar * tau * int[dk]
+    d_b v_a f with tau = 1 fs, S/m): d_b v_a = M_ab is constant, so sigma_ab = factor * M_ab * n, n = int[dk] f = occupied
+    fraction of the box / cell volume (in 2D of the one k-plane that the grid samples), and the occupied fraction is the
+    zero-temperature one (area/volume of the ellipse/ellipsoid) folded with -f' by the harness' own quadrature"""
+    from scipy.constants import elementary_charge, hbar, angstrom
+    x = np.linspace(-40.0, 40.0, 16001)                      # (E' - Ef)/kT
+    w = 0.25 / np.cosh(0.5 * x) ** 2
+    w /= np.sum(w)
+    frac = np.array([np.sum(w * m.parabolic_fraction(e + kT * x)) for e in Ef_judged])
+    vol = (2 * np.pi) ** 3 / abs(np.linalg.det(m.recip))
+    fac = elementary_charge ** 3 / hbar ** 2 / angstrom * 1e-15 if case["use_factor"] else 1.0
+    return fac * frac[:, None, None] * m.M[None, :, :] / vol
+
+
+class KPEvaluation:
+    def __init__(self, case):
+        from wannierberri.smoother import FermiDiracSmoother
+        self.case = case
+        self.model, self.Ef, self.info = kp_model(case)
+        self.system = kp_system(case, self.model)
+        self.smoother = FermiDiracSmoother(self.Ef, T_Kelvin=float(case["T"]))
+        if int(self.smoother.NE1) * (self.Ef[1] - self.Ef[0]) > KP_WINDOW * self.info["kT"]:
+            raise RuntimeError("harness: the smoother reaches beyond the Fermi grid")
+        self.grids = KP_GRIDS[case["dim"]][case["grid"]]
+        with scratch_dir() as d:
+            self.data = kp_run(self.system, case, self.Ef, self.smoother, self.grids[0], self.grids[1], d, "fine")
+        judged = np.where((self.Ef >= self.info["lo"]) & (self.Ef <= self.info["hi"]))[0]
+        self.sl = slice(int(judged[0]), int(judged[-1]) + 1)
+        self.info["njudged"] = len(judged)
+        self.out = {}
+        for name, ka, kb, tr in KP_PAIRS:
+            if ka not in self.data:
+                continue
+            A, B = self.data[ka][self.sl], self.data[kb][self.sl]
+            if A.shape != B.shape:
+                raise Violation(f"{name}:shape", f"{ka} {A.shape} vs {kb} {B.shape}")
+            self.out[name] = dict(rel=rel(A, B), flip=rel(A, -B), transp=(rel(A, np.transpose(B, tr)) if tr else None),
+                                  scale=max(maxabs(A), maxabs(B)))
+        self.exact = None
+        if case["kind"] == "parabolic":
+            self.exact = kp_exact_ohmic(case, self.model, self.Ef[self.sl], self.info["kT"])
+        self._conv = None
+
+    def conv1(self, key):
+        if self._conv is None:
+            with scratch_dir() as d:
+                coarse = kp_run(self.system, self.case, self.Ef, self.smoother, self.grids[2], self.grids[3], d, "coarse")
+            self._conv = {k: rel(self.data[k][self.sl], coarse[k][self.sl]) for k in self.data}
+        return self._conv[key]
+
+    def conv(self, name):
+        ka, kb = [(a, b) for n, a, b, _ in KP_PAIRS if n == name][0]
+        return self.conv1(ka) + self.conv1(kb)
+
+
+def check_kp(case):
+    ev = KPEvaluation(case)
+    info, m = ev.info, ev.model
+    dim = case["dim"]
+    asym = float(np.linalg.norm(m.recip - m.recip.T) / np.linalg.norm(m.recip))
+    fd = "".join("n" if case[k] else "a" for k in ("fd1", "fd2", "fd3"))
+    describe = (f"k.p model dim={dim} bands={case['nb']} {case['kind']} box={case['box']} derivatives(1,2,3)={fd} "
+                f"(a analytic, n numerical) cartesian={case['cartesian']} T={case['T']} use_factor={case['use_factor']} "
+                f"|B-B^T|/|B|={asym:.2f} judged levels={info['njudged']}")
+    status, margin, unconverged, blind = judge_pairs(
+        ev, KP_PAIRS, dim, lambda name: KP_THRESH.get((name, dim), KP_THRESH.get(name, KP_THRESH["default"])),
+        lambda name: False, describe)
+    exact = "no-exact-value"
+    if ev.exact is not None:
+        p_ok, p_clear, p_conv = KP_EXACT
+        exact = "exact-value:agrees"
+        for key in ("ohmic_sea", "ohmic_surf"):
+            A = ev.data[key][ev.sl]
+            if A.shape != ev.exact.shape:
+                raise Violation(f"{key}:shape", f"{A.shape} vs {ev.exact.shape}")
+            r = rel(A, ev.exact)
+            if r > p_clear:
+                cv = ev.conv1(key)
+                if not cv <= p_conv:
+                    unconverged.append(key + "/exact")
+                    continue
+                raise Violation(f"{key}:exact-value",
+                                f"{key} differs by {r:.3f} of the tensor scale from the exact value factor*M_ab*n(T) of the "
+                                f"parabolic pocket (sign-flipped {rel(A, -ev.exact):.3f}) although it changed by only {cv:.3f} "
+                                f"between the two grids; {describe}")
+            if r > p_ok:
+                margin.append(key + "/exact")
+    if unconverged:
+        raise Inconclusive("not converged: " + ",".join(unconverged))
+    if margin:
+        raise Inconclusive("inside the margin: " + ",".join(margin))
+    worst = max(ev.out[n]["rel"] for n in ("ohmic", "berrydipole") if n in ev.out)
+    mixed = len(set(fd[:2] if case["kind"] == "parabolic" else fd)) > 1
+    two = info["second_band"] is not None and info["second_band"] < info["hi"]
+    return ok(not blind, f"dim={dim}", f"bands={case['nb']}", case["kind"], f"box={case['box']}",
+              (case["lat"]["kind"] if case["lat"] else "cubic-kmax"),
+              "recip-nonsymmetric" if asym > 0.05 else "recip-symmetric", f"der={fd}",
+              "frame-sensitive" if (mixed and asym > 0.05) else None,
+              "cartesian-k" if case["cartesian"] else "reduced-k", f"use_factor={case['use_factor']}",
+              ("periodic=TTT" if case["periodic3"] else "periodic=TTF") if dim == 2 else None,
+              "both-bands-occupied" if two else None, exact,
+              "rel<0.5%" if worst < 0.005 else ("rel<2%" if worst < 0.02 else "rel<5%"),
+              *[f"{n}:{status[n]}" for n in ("nldrude", "gme_orb") if n in ev.out],
+              ("blind:" + ",".join(blind)) if blind else "all-pairs-discriminating")
+
+
+
+SUBS = [Sub("pairs", case_st(), check, quick=4, thorough=32, budget_quick=600, budget_thorough=1800, per_shard_min=1),
+        Sub("kp", kp_case_st(), check_kp, quick=8, thorough=48, budget_quick=600, budget_thorough=1800, per_shard_min=1)]
